@@ -599,6 +599,60 @@ theorem status_branch_consistent (regs : List (String × String)) (cls : String)
       rw [List.any_eq_true]
       exact ⟨a, by rw [hc]; simp, by simpa using hreg a (by rw [hc]; simp)⟩
 
+/-! #### the change tracker reports a target exactly when its value differs from the reference point -/
+
+/-- invariant of `ControlChangeTracker`: `(obj, attr) ∈ changed` iff the attribute's current value differs from the value stored at
+the reference point — after ANY sequence of control-action firings and resets -/
+theorem tracker_invariant {V : Type} [DecidableEq V] (s : Tracked V) (ops : List (TrackOp V))
+    (h : s.changed = decide (s.cur ≠ s.prev)) : (s.run ops).changed = decide ((s.run ops).cur ≠ (s.run ops).prev) := by
+  induction ops generalizing s with
+  | nil => exact h
+  | cons op rest ih =>
+    apply ih
+    cases op <;> simp [Tracked.step]
+
+theorem tracker_run_prev {V : Type} [DecidableEq V] (s : Tracked V) (vs : List V) : (s.run (vs.map .fire)).prev = s.prev := by
+  induction vs generalizing s with
+  | nil => rfl
+  | cons v rest ih => simp only [List.map_cons, Tracked.run]; rw [ih]; rfl
+
+/-- one trial: if the target is registered with the updater and the row was built for the reference value, then after
+`update_model_for_controls` the row is built for the CURRENT value and the tracker is back at a clean reference point -/
+theorem trialRound_consistent {V : Type} [DecidableEq V] (st : Tracked V × V) (fires : List V)
+    (hinv : st.1.changed = decide (st.1.cur ≠ st.1.prev)) (hbuilt : st.2 = st.1.prev) :
+    let st' := trialRound true st fires
+    st'.2 = st'.1.cur ∧ st'.1.prev = st'.1.cur ∧ st'.1.changed = false := by
+  have hi := tracker_invariant st.1 (fires.map .fire) hinv
+  have hp := tracker_run_prev st.1 fires
+  simp only [trialRound, modelUpdate, Tracked.step, Bool.and_true]
+  refine ⟨?_, trivial, trivial⟩
+  rw [hi]
+  by_cases hc : (st.1.run (fires.map .fire)).cur = (st.1.run (fires.map .fire)).prev
+  · simp [hc, hbuilt, hp]
+  · simp [hc]
+
+/-- **status_branch_consistent, without an unproved premise about the tracker**: starting from `create_hydraulic_model` +
+`set_reference_point('model')` (row built for the value the tracker stored), after ANY number of trials with ANY control-action
+firings on the target, the row in the model is the one for the target's current value, provided the target is registered with the
+ModelUpdater (`updater_registers_link_rows`, `params_read_current_attributes`) -/
+theorem tracked_row_consistent {V : Type} [DecidableEq V] (v0 : V) (rounds : List (List V)) :
+    let st := trialRounds true (Tracked.start v0, v0) rounds
+    st.2 = st.1.cur := by
+  suffices h : ∀ (st : Tracked V × V), st.1.changed = false → st.1.prev = st.1.cur → st.2 = st.1.cur →
+      (trialRounds true st rounds).2 = (trialRounds true st rounds).1.cur from h _ rfl rfl rfl
+  induction rounds with
+  | nil => intro st _ _ h3; exact h3
+  | cons r rest ih =>
+    intro st h1 h2 h3
+    simp only [trialRounds]
+    obtain ⟨a, b, c⟩ := trialRound_consistent st r (by simp [h1, h2]) (by rw [h3, h2])
+    exact ih _ c b a
+
+/-- and an unregistered target keeps the stale row although the tracker reports the change -/
+theorem unregistered_target_stale :
+    (trialRounds false (Tracked.start Status.active, Status.active) [[Status.opened]]).2 = Status.active ∧
+    (trialRounds false (Tracked.start Status.active, Status.active) [[Status.opened]]).1.cur = Status.opened := by decide
+
 /-- every attribute `changedAttrs` can report is among `rowDeps` of a head pump; for the other kinds the curve never changes -/
 theorem status_branch_consistent_of_rowDeps (kind : LinkKind) (approx : Approx) (regs : List (String × String))
     (built cur : ShapeKey) (hsub : subsetB (rowDeps kind approx) regs = true)
